@@ -2,6 +2,42 @@
 from checks.bbi_family import *
 
 
+def histories_part(run):
+    """"identically through the caching reader and after any earlier queries": Reader.tla with Kind = "bb" - every history of calls
+    (range query, zoom-level query through the same reader, a query naming an absent chromosome, conversion to the caching reader,
+    reopening) over two fixed bigBed files (a long entry before short ones, nested and duplicate entries, equal starts; one block per
+    entry, fan-out 2 => multi-level indexes): HistoryIndependent / ZoomHistoryIndependent / CacheCoherent model-checked, every history
+    replayed on ONE real reader instance and every answer judged (Obs_Reader)."""
+    hb = []
+    for cfg in (["MC_Reader_t4.cfg", "MC_Reader_t5.cfg", "MC_Reader_q4.cfg"] if run.thorough else ["MC_Reader_q4.cfg", "MC_Reader_q5.cfg"]):
+        r = tlc("MC_Reader", cfg, os.path.join(run.wd, "mc_reader_" + cfg[-6:-4]), workers=6, timeout=3000, xmx="8g")
+        tlc_must_pass(r, "Reader.tla (bigBed) HistoryIndependent/CacheCoherent (%s)" % cfg)
+        run.add_tlc(cfg[:-4], r)
+        hb += r.replays
+    if len(hb) < 500:
+        raise ToolError("vacuity: %d histories" % len(hb))
+    hcases = []
+    for k, b in enumerate(hb):
+        nchrom = max(it[0] for it in b["items"])
+        hcases.append({"kind": "bb", "chroms": [6] * nchrom, "items": b["items"], "hist": b["hist"], "vmap": "int", "scale": 1, "zrecs": b.get("zrecs", []),
+                       "asq": "bed3", "restmode": "uniq",
+                       "opts": {"ips": 1, "bs": b["bs"], "zooms": [2] if b.get("zrecs") else [], "zmode": "manual", "compress": k % 2, "inmem": 1, "threads": 1, "rt": "current", "pass": 1 + k % 2, "chan": 100}})
+    hobs = run_harness("reader", hcases, run.wd, hang_timeout=30)
+    lines = []
+    for o in hobs:
+        o.pop("case", None)
+        lines.append(json.dumps(o, separators=(",", ":")))
+        run.count_case(json.dumps([o["items"], o["hist"]]), any(h["op"] in ("cached", "reopen", "zoom") for h in o["hist"]))
+    bad = validate_obs("Obs_Reader", "Obs.cfg", lines, run.wd, "hist")
+    run.drift += len(validate_obs.last_drift)
+    run.cov["traces_validated_against_impl"] += len(hobs)
+    run.cov["histories"] = len(hobs)
+    run.cov["histories_zoom_then_data"] = sum(1 for o in hobs if any(h["op"] == "zoom" and any(g["op"] == "interval" for g in o["hist"][i + 1:]) for i, h in enumerate(o["hist"])))
+    for i, tag in bad:
+        o = hobs[i]
+        run.violation("C04 history %s: %s" % (json.dumps(o["hist"])[:300], tag), {"kind": "reader", "tag": tag, "case": {k: o[k] for k in o if k != "obs"}, "obs": o["obs"]})
+
+
 def main():
     run = Run("C04")
     cfgs = ["MC_BigBed_t1.cfg", "MC_BigBed_t2.cfg"] if run.thorough else ["MC_BigBed_q1.cfg", "MC_BigBed_q2.cfg"]
@@ -24,6 +60,7 @@ def main():
                       "failing_queries": [q for q in o["obs"].get("queries", [])][:60]}
     # exhaustive layouts, then deeper ones (5..8 entries, one entry per block, fan-out 2 => 3- and 4-level indexes) by random walks
     obs = run_batches(run, "C04", "MC_BigBed", cfgs, "Obs_BigBed", nt, desc, build, sims=[("MC_BigBed_deep.cfg", 6000 if run.thorough else 500)], size=150000)
+    histories_part(run)
     run.cov["queries_per_file"] = "all 0 <= s < e <= L on every chromosome"
     run.cov["rule"] = ("every start-sorted layout within the TLC bounds x ips {1,2(,3)} x block size {2,3}, ALL ranges queried; non-trivial = an entry "
                        "whose end exceeds the end of the next entry of its chromosome; distinct by (items, ips, zooms)")
